@@ -594,6 +594,12 @@ fn body(ctx: &Ctx) -> (Summary, Meta) {
         out
     });
     sum.merge(sc);
+    sum.merge(run_jobs(ctx, "edge-knot-batches", &[0usize, 1, 2, 3], |f| format!("edge-knots:family{f}"), |f| {
+        let mut out = JobOut::default();
+        nimc::subj::edge_knot_batches(&mut out, *f);
+        out.sample = Some(Json::str(&format!("knot family {f}: subsets of 4..6 of 10 round knots")));
+        out
+    }));
     // results of 16 MiB + / 32 MiB + (quick) and 128 MiB + (thorough)
     let mut huge: Vec<(usize, bool)> = vec![((1 << 21) + 9, false), ((1 << 21) + 10, true), ((1 << 22) + 9, false)];
     if !ctx.quick() {
@@ -606,7 +612,7 @@ fn body(ctx: &Ctx) -> (Summary, Meta) {
         out
     }));
     let meta = Meta {
-        rule: "every instantiation {Interp1D x data Ix1..Ix6, IxDyn(rank 1,3,7,14,20); Interp2D x data Ix2..Ix6, IxDyn(rank 2,4,8,15)} x query dimension types Ix0..Ix4, IxDyn(rank 0..5; incl. dynamic rank 1, which takes the general path) x query shapes incl. empty ones x data shapes incl. a zero-length trailing axis x strategies {Linear, Linear+extrapolate, CubicSpline on the default axis; Linear, periodic and natural extrapolating CubicSpline on the explicit axis -5.3 + 2.7 i / Bilinear, Bilinear+extrapolate} x {all in range, one out-of-range element at the last / first / middle position}. Oracle: result shape = query shape ++ trailing data dims (also when the combined rank exceeds 6); interp_array(q)[i] == interp(q[i]) bit for bit; the batch is Ok iff every element is; interp_array_into into a poisoned window equals interp_array and leaves the surroundings intact; interp_scalar == interp. Queries hit knots exactly, repeat values, contain 0.0 next to -0.0 (the samples at the first knot are -0.0) and, in a separate group, are views into the same buffer as the axis. Phase huge-batches: batches of 2^21+9, 2^22+9 (thorough: 2^24+9) queries (results of 16 - 128 MiB) with four out-of-range elements, 1-d and 2-d query arrays, Linear / CubicSpline / Bilinear with and without extrapolation: interp_array and interp_array_into agree with element-wise interp_scalar in verdict and bits. Every case is non-trivial.".into(),
+        rule: "every instantiation {Interp1D x data Ix1..Ix6, IxDyn(rank 1,3,7,14,20); Interp2D x data Ix2..Ix6, IxDyn(rank 2,4,8,15)} x query dimension types Ix0..Ix4, IxDyn(rank 0..5; incl. dynamic rank 1, which takes the general path) x query shapes incl. empty ones x data shapes incl. a zero-length trailing axis x strategies {Linear, Linear+extrapolate, CubicSpline on the default axis; Linear, periodic and natural extrapolating CubicSpline on the explicit axis -5.3 + 2.7 i / Bilinear, Bilinear+extrapolate} x {all in range, one out-of-range element at the last / first / middle position}. Oracle: result shape = query shape ++ trailing data dims (also when the combined rank exceeds 6); interp_array(q)[i] == interp(q[i]) bit for bit; the batch is Ok iff every element is; interp_array_into into a poisoned window equals interp_array and leaves the surroundings intact; interp_scalar == interp. Queries hit knots exactly, repeat values, contain 0.0 next to -0.0 (the samples at the first knot are -0.0) and, in a separate group, are views into the same buffer as the axis. Phase edge-knot-batches: 2688 axes whose knots are subsets of k/10, k/3, 7k/10 and a symmetric dyadic set; all knots, their neighbouring floats and midpoints answered one by one, as static and dynamic rank-1 batches (at least as long as the axis), again one by one afterwards and on a second fresh interpolator - all bit-identical. Phase huge-batches: batches of 2^21+9, 2^22+9 (thorough: 2^24+9) queries (results of 16 - 128 MiB) with four out-of-range elements, 1-d and 2-d query arrays, Linear / CubicSpline / Bilinear with and without extrapolation: interp_array and interp_array_into agree with element-wise interp_scalar in verdict and bits. Every case is non-trivial.".into(),
         bounds: format!("{ncases} cases over 78 static/dynamic instantiations x 3 (2) strategies; tier {}", ctx.tier.name()),
         assumptions: vec![],
         extra: vec![],
